@@ -132,20 +132,29 @@ function collectSlotNodes(host, slot, out) {
   walk(host)
 }
 
+// the slot list new dynamic-slot components start from (C06 histories replace it step by step); each entry has a stable id
+export const slotState = { list: DYN_SLOTS.map((d, i) => ({ id: i, name: d.name, values: d.values })) }
+export function resetSlotState() { slotState.list = DYN_SLOTS.map((d, i) => ({ id: i, name: d.name, values: d.values })) }
+
 class DynShadowRoot {
   constructor(host) {
     this.host = host
-    this.slots = DYN_SLOTS.map((d) => {
-      const e = new Element('virtual', host.ownerShadowRoot)
-      e.is = 'slot'
-      e._$slotName = d.name
-      e._$slotValues = { ...d.values }
-      Object.defineProperty(e, 'slotNodes', { get: () => { const out = []; collectSlotNodes(host, e, out); return out } })
-      return e
-    })
+    this.slots = slotState.list.map((d) => this.makeSlot(d))
     this.inserted = false
     this.dynamicSlots = new Map()
+    this.names = []
   }
+  makeSlot(d) {
+    const host = this.host
+    const e = new Element('virtual', host.ownerShadowRoot)
+    e.is = 'slot'
+    e._$dynId = d.id
+    e._$slotName = d.name
+    e._$slotValues = { ...d.values }
+    Object.defineProperty(e, 'slotNodes', { get: () => { const out = []; collectSlotNodes(host, e, out); return out } })
+    return e
+  }
+  slotById(id) { return this.slots.find((s) => s._$dynId === id) }
   getSlotMode() { return SlotMode.Dynamic }
   setDynamicSlotHandler(names, insert, remove, update) {
     this.names = names
@@ -174,6 +183,46 @@ class DynShadowRoot {
         }
       }
     }
+  }
+  // ---- what the owning component does to its slots later (shadow_root.ts: replaceSlotValue, applySlotValueUpdates,
+  // _$applySlotRename, slot insertion / removal in dynamic mode) ----
+  replaceSlotValue(slot, name, value) {
+    const slotValues = slot._$slotValues
+    if (!slotValues) return
+    if (slotValues[name] === value) return
+    slotValues[name] = value
+    if (this.names.indexOf(name) < 0) return
+    const meta = this.dynamicSlots.get(slot)
+    if (!meta) return
+    if (!meta.updatePathTree) meta.updatePathTree = Object.create(null)
+    meta.updatePathTree[name] = true
+  }
+  applySlotValueUpdates(slot) {
+    const meta = this.dynamicSlots.get(slot)
+    const t = meta && meta.updatePathTree
+    if (!t) return
+    meta.updatePathTree = undefined
+    if (this.updateHandler) this.updateHandler(slot, slot._$slotValues, t)
+  }
+  renameSlot(slot, newName) {
+    slot._$slotName = newName
+    if (!this.inserted) return
+    this.dynamicSlots.set(slot, { updatePathTree: undefined })
+    if (this.removeHandler) this.removeHandler([slot])
+    if (this.insertHandler) this.insertHandler([{ slot, name: newName, slotValues: slot._$slotValues }])
+  }
+  insertSlot(d, index) {
+    const slot = this.makeSlot(d)
+    this.slots.splice(index, 0, slot)
+    if (!this.inserted) return
+    this.dynamicSlots.set(slot, { updatePathTree: undefined })
+    if (this.insertHandler) this.insertHandler([{ slot, name: slot._$slotName, slotValues: slot._$slotValues }])
+  }
+  removeSlots(slots) {
+    this.slots = this.slots.filter((s) => !slots.includes(s))
+    if (!this.inserted) return
+    for (const s of slots) this.dynamicSlots.delete(s)
+    if (this.removeHandler) this.removeHandler(slots)
   }
 }
 
